@@ -2,7 +2,7 @@
    Statements only; proofs are in Print/RoundTrip.v, Print/ModelTheorems.v, Print/Witness25.v. *)
 From HyV Require Import Print.Syntax Print.Names Print.Reader Print.ModelRepr Print.TableOracle Print.ReaderFacts
      Print.StringFacts Print.AtomFacts Print.SugarFacts Print.RoundTrip Print.ModelTheorems Print.Witness25
-     Print.GenChecks.
+     Print.GenChecks Print.Toy.
 
 (* The property as stated, for the models of printer and reader: every model the reader can produce
    is printed as a text whose reading evaluates back to the model (then printing again gives the same text). *)
@@ -10,10 +10,12 @@ Definition C25_full : Prop :=
   forall W : oracle, num_facts W -> forall m, readable W m -> repr_roundtrips W m.
 
 (* Proved for the fragment [ok]: symbols, keywords, numbers, strings and bytes of any content, bracket strings,
-   lists, tuples, sets, dicts, parenthesised forms, the six sugared forms and dotted identifiers, nested to any
-   depth.  Missing from the proof: f-strings (FString / FComponent nodes), for which the printer and reader
-   models exist and are compared with the implementation on every run.  Outside the fragment by defect of the
-   printer: the seven classes refuted below. *)
+   lists, tuples, sets, dicts, parenthesised forms, the six sugared forms, dotted identifiers, and f-strings /
+   t-strings written with quotes (String components of any content, fields over any fragment model, with a
+   conversion and with a format spec that is plain text or a nested field), all nested to any depth.
+   Missing from the proof (_partial): bracket f-strings (#[f[ ... ]f]), whose printer and reader models exist and
+   are compared with the implementation on every run.  Outside the fragment by defect of the printer: the
+   eight classes refuted below. *)
 Theorem C25_repr_read_roundtrip_partial :
   forall W : oracle, num_facts W -> forall m, ok W m -> repr_roundtrips W m.
 Proof. exact repr_read_roundtrip. Qed.
@@ -50,11 +52,22 @@ Proof. exact named_escape_text. Qed.
 Theorem C25_refuted_unquote_dotted_at :          (* (unquote @a.b) *)
   exists m, readable W_plain m /\ ~ repr_roundtrips W_plain m.
 Proof. exact unquote_dotted_at. Qed.
+Theorem C25_refuted_bracket_fstring_cr :         (* #[f[{a CR = }]f] *)
+  exists m, readable W_plain m /\ ~ repr_roundtrips W_plain m.
+Proof. exact bracket_fstring_cr. Qed.
 Print Assumptions C25_refuted_spec_rest_dropped.
 Print Assumptions C25_refuted_unquote_dotted_at.
+
+(* the oracle hypotheses are satisfiable *)
+Theorem C25_oracle_hypotheses_satisfiable : exists W, num_facts W.
+Proof. exact (ex_intro _ W_toy toy_facts). Qed.
 
 (* the hypotheses of the partial theorem are met by a non-trivial model: '(a 'b #[x[hi]x] x.y) *)
 Example C25_hypotheses_met : forall W,
   num W [97] = NotNum -> num W [98] = NotNum -> num W [120] = NotNum -> num W [121] = NotNum ->
   num W [120; 46; 121] = NotNum -> ok W m_example.
 Proof. exact example_ok. Qed.
+
+(* ... and by the f-string  f"a{x !r :{w}}" *)
+Example C25_hypotheses_met_fstring : forall W, num W [120] = NotNum -> num W [119] = NotNum -> ok W m_fexample.
+Proof. exact example_fstr_ok. Qed.
